@@ -71,6 +71,17 @@ func (vm *VM) CopyState(vmSource *VM) error {
 	return nil
 }
 
+// pipelinePhase / setPipelinePhase keep the phase of a pipelined opcode in the VM that executes it
+// (the opcode objects are shared by every processor and every simulation of the process)
+func (vm *VM) pipelinePhase(name string) uint8 {
+	phase, _ := vm.Extra_states["pipeline_"+name].(uint8)
+	return phase
+}
+
+func (vm *VM) setPipelinePhase(name string, phase uint8) {
+	vm.Extra_states["pipeline_"+name] = phase
+}
+
 // Simbox rules are converted in a sim drive when the simulation starts and applied during the simulation
 type SimTickSet map[int]interface{}
 type SimDrive struct {
